@@ -248,6 +248,8 @@ Definition roots (st : state) : list loc :=
 
 (* ---------- StringSpace ---------- *)
 
+Definition take_pad (n : nat) (l : list Z) : list Z := firstn n l ++ repeat 0 (n - length (firstn n l)).
+
 (* StringSpace._retrieve / view: the bytes a pointer refers to *)
 Definition deref (c : cfg) (st : state) (p : ptr) : res (list Z) :=
   let '(l, a) := p in
@@ -255,7 +257,8 @@ Definition deref (c : cfg) (st : state) (p : ptr) : res (list Z) :=
   else if var_start c <=? a then
     match lookup a (strs st) with Some bs => Ok bs | None => Host host_KeyError end
   else if code_start c <=? a then
-    match lookup a (code c) with Some bs => Ok (firstn (Z.to_nat l) bs) | None => Ok [] end
+    (* program.get_memory_block(address, length): always exactly `length` bytes of program memory *)
+    Ok (take_pad (Z.to_nat l) (match lookup a (code c) with Some bs => bs | None => [] end))
   else Host host_ValueError.
 
 (* one entry of string_list in collect_garbage: (view, address, string) *)
